@@ -205,7 +205,7 @@ def time_respecting_paths(G, u, v=None, start=None, end=None, sample=1):
                         continue
                     s = l
 
-            if flag:
+            if flag and len(pt) > 0:
                 paths.append(pt)
 
     pa = list(dict.fromkeys([tuple(x) for x in paths]))
